@@ -113,7 +113,7 @@ def viol(pid, h, k, info, clause, detail, model_same=None):
     return {"property": pid, "kind": info.kind if info else "?", "ty": info.ty if info else "?",
             "clause": clause, "calm": info.calm() if info else True, "step": k, "op": h.ops[k],
             "detail": detail, "real": h.real[k][:300], "model": (h.model[k][:300] if h.model else None),
-            "model_predicts": model_same, "ops": h.ops[:k + 1], "meta": h.meta}
+            "model_predicts": model_same, "ops": list(h.ops), "meta": h.meta}
 
 
 def match_known(known, pid, v):
